@@ -29,6 +29,9 @@ POOL = [
     (("b", 2.0), ("a", 1.0)),
     (("d", 1.0), (CTL, 0.0)),  # single agent that never occurs in a combination
     ((CTL, 0.0), ("b", 1.0)),  # control in the first column
+    ((CTL, 0.0), (CTL, 0.0)),  # vehicle-only well
+    (("a", 0.0), ("c", 0.0)),  # controls written as real drug names at dose 0
+    (("d", 1.0), ("b", 0.0)),  # single agent whose control slot is a real drug name at dose 0
 ]
 POOL_COMBO_ONLY = [p for p in POOL if all(t[0] != CTL for t in p)]
 
@@ -60,7 +63,7 @@ def layouts(max_samples, max_plates, max_size, max_total):
 def build_rows(layout, n_obs, pool="mixed", all_observed=False):
     """layout: list (per sample) of unobserved plate sizes; n_obs rows go to an
     observed plate 'obs' (cycling over the samples)."""
-    P = POOL if pool == "mixed" else POOL_COMBO_ONLY
+    P = POOL_COMBO_ONLY if pool == "combo" else (POOL[6:] + POOL[:6] if pool == "mixed5" else POOL)
     rows = []
     g = 0
     pid = 0
@@ -166,7 +169,7 @@ def plan(tier, prop):
                     continue
                 if kind == "pairwise" and total > 4 and tier == "quick":
                     continue
-                pools = ("mixed", "combo") if kind == "pairwise" else ("mixed",)
+                pools = ("mixed", "mixed5", "combo") if kind == "pairwise" else (("mixed", "mixed5") if kind == "segregate" else ("mixed",))
                 for pool in pools:
                     items.append({"op": kind, "params": params, "layout": lay, "n_obs": n_obs, "pool": pool})
     # hold-outs
@@ -183,7 +186,9 @@ def plan(tier, prop):
             for flag in (False, True):
                 items.append({"op": "sparse_cover", "params": {"reveal_single_treatment_experiments": flag},
                               "layout": lay, "n_obs": 0, "pool": "mixed"})
-            items.append({"op": "combo_filter", "params": {}, "layout": lay, "n_obs": 1, "pool": "mixed"})
+            for pool in ("mixed", "mixed5"):
+                for n_obs in (0, 2):
+                    items.append({"op": "combo_filter", "params": {}, "layout": lay, "n_obs": n_obs, "pool": pool})
     return items
 
 
